@@ -50,7 +50,17 @@ func Register(id string, run func(r *mon.Run)) {
 			runFaultThenUse(r, id, r.N(10, 300)) // once per run, not once per batch process (race build)
 		}
 		if ops := coldConcOps[id]; ops != nil {
-			runConcurrentColdStart(r, id, r.N(30, 300), ops)
+			n := r.N(30, 300)
+			if id == "C20" {
+				// race build, one process per batch already: once per run, fewer children
+				n = r.N(12, 100)
+				if b := os.Getenv("VERIF_BATCH"); b != "" && b != "0" {
+					n = 0
+				}
+			}
+			if n > 0 {
+				runConcurrentColdStart(r, id, n, ops)
+			}
 		}
 	}}
 }
